@@ -340,6 +340,14 @@ class Check:
             tail = "\n".join(r["log"].splitlines()[-40:])
             self.breaks.append("proof obligations of Props/Properties_%s.v no longer check (files: %s)\n%s" % (self.pid, ",".join(r["failed_files"]), tail))
         self.log("proof:", "OK" if (r["ok"] and not bad) else "BROKEN", "theorems=%d" % n, "axioms=%s" % r["axioms"])
+        if r["ok"] and not getattr(self, "quick", True) and os.environ.get("CMI_NO_COQCHK", "") != "1":
+            # thorough tier: re-check the compiled property file and everything it depends on with the independent checker
+            with Lock("coqchk"):
+                rc, out = sh(["timeout", "2400", "coqchk", "-silent", "-o", "-Q", ".", "CMI", "CMI.Props.Properties_%s" % self.pid], cwd=COQ, timeout=2460)
+            cov["coqchk"] = {"exit": rc, "tail": " ".join(out.split())[-600:]}
+            if rc != 0:
+                self.breaks.append("coqchk rejects Props/Properties_%s.vo:\n%s" % (self.pid, out[-1500:]))
+            self.log("coqchk:", "OK" if rc == 0 else "FAILED (%d)" % rc)
         return r["ok"] and not bad
 
     # -- violations -----------------------------------------------------------
